@@ -119,6 +119,8 @@ def run(ob, scratch):
         return run_leaf(ob, scratch)
     if ob['params'].get('kernel') == 'leaf_set':
         return run_leaf_set(ob, scratch)
+    if ob['params'].get('kernel') == 'tree_get':
+        return run_tree_get(ob, scratch)
     t0 = time.time()
     P = ob['params']
     fam, kernel, n = P['family'], P['kernel'], P['n']
@@ -749,3 +751,178 @@ def run_leaf_set(ob, scratch):
                solver_s=round(it.stats['solver_s'] + ts, 3), wall_s=round(time.time() - t0, 2), twin_refuted=reached > 0,
                instr=it.stats['instr'], witness={'returning_paths': reached})
     return res
+
+
+# ---------------------------------------------------------------------------
+# tree-level lookup of the native-key families: _BTree_get on a fake multi-level tree built from a catalogue template
+
+T_TYPE, B_TYPE = 0x7770000, 0x7780000
+
+
+def tree_build(module, mem, fam, tpl, keys, vals):
+    """allocate BTree_s / Bucket_s structs for a template (engine.shapes form) with symbolic key words per rank.
+    -> address of the root, list of (address of state field) of every node, list of (key array, value array, ranks) of leaves"""
+    kb = KEYT[fam[0]][0]
+    vb = KEYT[fam[1]][0]
+    blay, tlay, ilay = module.layout('%struct.Bucket_s'), module.layout('%struct.BTree_s'), module.layout('%struct.BTreeItem_s')
+    states, leaves = [], []
+
+    def header(addr, typ, offs):
+        mem.store(addr, 8, llsym.bv(1, 64))
+        mem.store(addr + 8, 8, llsym.bv(typ, 64))
+        mem.store(addr + offs[6], 4, llsym.bv(0, 32))
+        states.append(addr + offs[6])
+
+    def leaf(ranks):
+        b = mem.alloc(blay[0], 'bucket')
+        header(b, B_TYPE, blay[2])
+        n = len(ranks)
+        mem.store(b + blay[2][7], 4, llsym.bv(n, 32))
+        mem.store(b + blay[2][8], 4, llsym.bv(n, 32))
+        mem.store(b + blay[2][9], 8, llsym.bv(0, 64))
+        ka, va = mem.alloc(max(n, 1) * kb // 8, 'keys'), mem.alloc(max(n, 1) * vb // 8, 'values')
+        for i, r in enumerate(ranks):
+            mem.store(ka + i * kb // 8, kb // 8, keys[r])
+            mem.store(va + i * vb // 8, vb // 8, vals[r])
+        mem.store(b + blay[2][10], 8, llsym.bv(ka, 64))
+        mem.store(b + blay[2][11], 8, llsym.bv(va, 64))
+        leaves.append((ka, va, ranks))
+        return b
+
+    def node(t):
+        if t[0] == 'B':
+            return leaf(t[1])
+        if t[0] == 'T1':
+            kids, seps = [('B', t[1])], []
+        else:
+            kids, seps = t[1][::2], t[1][1::2]
+        a = mem.alloc(tlay[0], 'btree')
+        header(a, T_TYPE, tlay[2])
+        n = len(kids)
+        mem.store(a + tlay[2][7], 4, llsym.bv(n, 32))
+        mem.store(a + tlay[2][8], 4, llsym.bv(n, 32))
+        data = mem.alloc(n * ilay[0], 'items')
+        first = None
+        for i, k in enumerate(kids):
+            c = node(k)
+            if i == 0:
+                first = c
+            mem.store(data + i * ilay[0] + ilay[2][0], kb // 8, keys[seps[i - 1]] if i else llsym.bv(0, kb))
+            mem.store(data + i * ilay[0] + ilay[2][1], 8, llsym.bv(c, 64))
+        mem.store(a + tlay[2][9], 8, llsym.bv(0, 64))          # firstbucket: not used by lookups
+        mem.store(a + tlay[2][10], 8, llsym.bv(data, 64))
+        mem.store(a + tlay[2][11], 8, llsym.bv(0, 64))
+        mem.store(a + tlay[2][12], 8, llsym.bv(0, 64))
+        return a
+    root = node(tpl) if tpl[0] != 'E' else None
+    return root, states, leaves
+
+
+def run_tree_get(ob, scratch):
+    from engine import shapes as shp
+    t0 = time.time()
+    P = ob['params']
+    fam, tpl, hk = P['family'], P['tpl'], P['has_key']
+    tpl = _tup(tpl)
+    m = shp.n_ranks(tpl)
+    res = {'id': ob['id'], 'names': ['n'] + ['k%d' % i for i in range(m)], 'twin_refuted': False, 'witness': None, 'twin_s': 0}
+    kb, ksigned = KEYT[fam[0]]
+    vb, vsigned = KEYT[fam[1]]
+    aw = z3.BitVec('n', kb)
+    keys = [z3.BitVec('k%d' % i, kb) for i in range(m)]
+    vals = [z3.BitVec('w%d' % i, vb) for i in range(m)]
+    ltk = (lambda a_, b_: a_ < b_) if ksigned else z3.ULT
+    pre = [ltk(keys[i], keys[i + 1]) for i in range(m - 1)]
+    try:
+        module = build_conv(fam, scratch)
+        it, mem, L = leaf_setup(module, fam, z3.IntVal(0), z3.BoolVal(True), [], [], 0, ob.get('timeout', 120))
+        ext = (z3.SignExt if ksigned else z3.ZeroExt)(64 - kb, aw) if kb < 64 else aw
+        same = lambda itp, args, m_, cond: ext
+
+        def ll_overflow(itp, args, m_, cond):
+            m_.store(itp.conc(args[1]), 4, llsym.bv(0, 32))
+            return ext
+        it.externs.update(PyLong_AsLong=same, PyLong_AsUnsignedLongLong=same, PyLong_AsLongLongAndOverflow=ll_overflow)
+        root, states, leaves = tree_build(module, mem, fam, tpl, keys, vals)
+        outs = it.run('_BTree_get', [llsym.bv(root, 64), llsym.bv(L['obj'], 64), llsym.bv(hk, 32), llsym.bv(1, 32)], mem, pre)
+    except (llsym.Unsupported, llsym.Budget) as e:
+        res.update(verdict='inconclusive', detail='%s: %s' % (type(e).__name__, e), paths=0, solver_queries=0, solver_s=0, wall_s=time.time() - t0)
+        return res
+    stored = sorted({r for _, _, ranks in leaves for r in ranks})
+    s = z3.Solver()
+    s.add(*pre)
+    q, ts, cex, detail, reached = 0, 0.0, None, None, 0
+    for o in outs:
+        s.push()
+        s.add(*o.cond)
+        t1 = time.perf_counter()
+        feas = str(s.check())
+        q += 1
+        if feas != 'sat':
+            s.pop()
+            ts += time.perf_counter() - t1
+            if feas == 'unknown':
+                cex, detail = 'unknown', 'solver unknown on a path condition'
+                break
+            continue
+        if o.kind in ('assert', 'memory'):
+            cex, detail = s.model(), ('assertion reachable: ' if o.kind == 'assert' else 'memory error: ') + str(o.detail)
+            s.pop()
+            break
+        if o.kind == 'dead':
+            s.pop()
+            continue
+        reached += 1
+        e = o.mem.load(L['err'], 8)
+        ret = o.ret
+        retval = None
+        rs = z3.simplify(ret)
+        if z3.is_bv_value(rs) and rs.as_long() != 0:
+            retval = o.mem.load(rs.as_long(), 8)
+        unpinned = [o.mem.load(a_, 4) == 0 for a_ in states]
+        untouched = [o.mem.load(ka + i * kb // 8, kb // 8) == keys[r] for ka, va, ranks in leaves for i, r in enumerate(ranks)]
+        found = {r: keys[r] == aw for r in stored}
+        anyf = z3.Or(*found.values()) if found else z3.BoolVal(False)
+        if hk == 0:
+            want = z3.And(z3.Implies(z3.Not(anyf), z3.And(ret == 0, e == llsym.bv(KEY_ERROR, 64))),
+                          *[z3.Implies(found[r], z3.And(ret != 0, e == 0,
+                                                       (retval == ((z3.SignExt if vsigned else z3.ZeroExt)(64 - vb, vals[r]) if vb < 64 else vals[r]))
+                                                       if retval is not None else z3.BoolVal(False))) for r in stored])
+        else:
+            want = z3.And(ret != 0, e == 0, (z3.If(anyf, retval != 0, retval == 0)) if retval is not None else z3.BoolVal(False))
+        r_ = str(s.check(z3.Not(z3.And(want, *unpinned, *untouched))))
+        q += 1
+        ts += time.perf_counter() - t1
+        if r_ == 'sat':
+            cex, detail = s.model(), '_BTree_get post-condition violated (found iff stored in a leaf / value / KeyError / all nodes unpinned / untouched)'
+            s.pop()
+            break
+        if r_ != 'unsat':
+            cex, detail = 'unknown', 'solver unknown on the post-condition'
+            s.pop()
+            break
+        s.pop()
+    if cex == 'unknown':
+        verdict, cex = 'inconclusive', None
+    elif cex is not None:
+        verdict = 'counterexample'
+        mdl = cex
+
+        def gv(x):
+            v_ = mdl.eval(x, model_completion=True).as_long()
+            return v_ - (1 << kb) if (ksigned and v_ >> (kb - 1)) else v_
+        cex = {'n': gv(aw)}
+        for i in range(m):
+            cex['k%d' % i] = gv(keys[i])
+    elif reached == 0:
+        verdict, detail = 'inconclusive', 'vacuous: no feasible returning path'
+    else:
+        verdict = 'confirmed'
+    res.update(verdict=verdict, detail=detail, cex=cex, paths=len(outs), solver_queries=it.stats['queries'] + q,
+               solver_s=round(it.stats['solver_s'] + ts, 3), wall_s=round(time.time() - t0, 2), twin_refuted=reached > 0,
+               instr=it.stats['instr'], witness={'returning_paths': reached})
+    return res
+
+
+def _tup(x):
+    return tuple(_tup(i) for i in x) if isinstance(x, (list, tuple)) else x
